@@ -582,7 +582,9 @@ func runC10(c *run.Ctx) {
 					// deepest layer: one scope per matcher kind plus the named ones
 					set = nil
 					for i := range bs {
-						if (i+len(doc))%4 == 0 || !strings.HasPrefix(bs[i].S.Name, "c10-") {
+						// (generated scope x matcher rule sets on a sixth of the documents each, the named ones on half)
+						gen := strings.Contains(bs[i].S.Name, "-style")
+						if gen && (i+len(doc))%6 == 0 || !gen && (i+len(doc))%2 == 0 {
 							set = append(set, bs[i])
 						}
 					}
